@@ -142,7 +142,7 @@ def describe(t):
             d = {"stack": "noise", "key_types": [KT.get(t[1]), KT.get(t[2])], "initiator": side(t[3:8]), "responder": side(t[8:13]),
                  "edit": {"kind": EK.get(t[13]), "message": t[14], "a": t[15], "b": t[16], "byte": t[17]}}
             if t[18]:
-                d["forging_endpoint"] = {"is_initiator": t[19], "claims": {4: "junk", 5: "empty"}.get(t[20], NAME.get(t[20])),
+                d["forging_endpoint"] = {"is_initiator": t[19], "claims": {4: "junk", 5: "empty"}.get(t[20], NAME.get(t[20]) if t[20] < 10 else "%s's key, non-canonical serialization %d" % (NAME.get(t[20] % 10), t[20] // 10)),
                                          "signed_by": {4: "junk", 5: "empty"}.get(t[21], NAME.get(t[21])),
                                          "signed_message": {0: "prefix+static", 1: "prefix+another static", 2: "static only"}.get(t[22])}
             if t[23]:
@@ -273,12 +273,12 @@ if __name__ == "__main__":
              "expected peer \"\"/A/B/E, prologue nil/1/2) undisturbed; (B) every structural edit (a byte in the middle and at the end of every component, cuts at and one byte past every "
              "component boundary, cut by 1/16/17 bytes, length prefix enlarged, extended by 1/16 bytes, dropped, duplicated, spliced from a second concurrent session) of every message "
              "x 4x4 expected-peer settings x 5 prologue pairings; (C) every byte position of every handshake message (incl. the length prefix) flipped (sampled for the non-Ed25519 types in quick); "
-             "(D) a cooperating malicious endpoint (flynn/noise driven directly) presenting 5 claimed identity keys x 7 signatures (own key over prefix+static / another static / static only, "
+             "(D) a cooperating malicious endpoint (flynn/noise driven directly) presenting 11 claimed identity keys (A/B/E canonical, junk, empty, and valid NON-canonical protobuf serializations: unknown field appended, fields reordered, non-minimal varint) x 7 signatures (own key over prefix+static / another static / static only, "
              "recorded signatures of A and B, junk, empty) x 4 settings x 2 prologues x both roles; (E) faults: a panic at the k-th Write / Read on the insecure connection and in the early-data handler's Send / Received, "
              "in either endpoint x 4 expected-peer settings x 2 prologues (a panic must be an error outcome, never a session whose peer was not verified). Observed per endpoint: error class or RemotePeer()/RemotePublicKey(). "
              "TLS: (2) the VerifyPeerCertificate callback of ConfigForPeer(exp) and PubKeyFromCertChain on certificates built with 29 presentations (extension public key / signature / certificate key replaced, "
              "victim's extension replayed, stolen certificate, extension absent / twice / not ASN.1 / critical, other extensions, chain length 0/2, signed by another key and altered after signing — the corpus of the repaired self-signature defect, now rejected —, expired) x 4 expectations x identities; "
-             "(3) real tls.Transport pairs whose certificates were replaced by those presentations on either side x expected-peer settings, and a record-aware man in the middle: byte flips of every handshake record "
+             "(2c) a concurrent stream: 4 goroutines verifying the victim's genuine certificate while 4 verify forged chains (the victim's extension in the attacker's certificate), 20k verifications per key type quick / 400k thorough: every forged chain must be rejected in every interleaving; (3) real tls.Transport pairs whose certificates were replaced by those presentations on either side x expected-peer settings, and a record-aware man in the middle: byte flips of every handshake record "
              "(content type, length, payload; all positions in thorough), truncate/extend/drop/duplicate/splice; after an undisturbed handshake one byte is exchanged each way (first Read on the client reports a server-side rejection). "
              "Swarm: (4) dialAddr, DialPeer and dialPeer-over-a-scripted-dial-sync on a real Swarm whose transport authenticates every peer 0..4 for every dialled peer 1..4. "
              "QUIC: (5) real QUIC transports over loopback UDP (they reuse Identity.ConfigForPeer / PubKeyFromCertChain): dialer A or E x listener B or E x every expected peer x key types; Dial's result, the listener's Accept, RemotePeer()/RemotePublicKey() on both ends; (6) hole punching in the server role (WithSimultaneousConnect(ctx, false)): a dial for P towards the address where a peer Q lives while Q "
